@@ -95,7 +95,7 @@ pub fn alone(prog: &[String], dir: &std::path::Path) -> Vec<String> {
     let p = prog.to_vec();
     let dir = dir.to_path_buf();
     on_fresh_thread(move || {
-        let mut it = Interp::new().expect("interpreter");
+        let mut it = Interp::must_new();
         it.it.program_directory = Some(dir);
         p.iter().map(|f| strip_location(&it.eval(f))).collect()
     })
@@ -117,8 +117,8 @@ pub fn interleaved_thin(a: &[String], b: &[String], order: &[bool], every: usize
     let (a, b, order) = (a.to_vec(), b.to_vec(), order.to_vec());
     let (da, db) = dirs();
     on_fresh_thread(move || {
-        let mut i1 = Interp::new().expect("instance 1");
-        let mut i2 = Interp::new().expect("instance 2");
+        let mut i1 = Interp::must_new();
+        let mut i2 = Interp::must_new();
         i1.it.program_directory = Some(da);
         i2.it.program_directory = Some(db);
         let (mut ra, mut rb) = (vec![], vec![]);
